@@ -306,6 +306,9 @@ def run(ck):
     # non-collinear vector-spin textures related by 3-, 4-, 6-fold rotations (kagome 120-degree both chiralities, square vortices,
     # pyrochlore all-in-all-out ...): the rotated spin cartrot.s_i must be (a phase times) the spin of the image atom
     tex = latt.texture_specs()
+    if ck.quick:   # mixed scalar-0 / vector representations: all "scalar 0 listed first" crystals, the other two forms for two of them
+        tex = [t for t in tex if not t.label.startswith("mixed") or t.label.endswith("scalar0-first")
+               or t.label.startswith(("mixed-tet-moment-x", "mixed-tet-canted"))]
     afm += tex
     # multi-chemistry non-symmorphic crystals, the more symmetric sublattice listed first and last (indexmap must have one permutation
     # per chemistry, each matching rot.u + trans for EVERY chemistry)
